@@ -38,7 +38,12 @@ def find_assign(scope, name):
     raise TranslationError("assignment %s not found" % name)
 
 
-TRANSLATORS = ["semantic_id", "safe_eval"]
+def _discover():
+    here = os.path.dirname(os.path.abspath(__file__))
+    return sorted(f[:-3] for f in os.listdir(here) if f.endswith(".py") and not f.startswith("_"))
+
+
+TRANSLATORS = _discover()
 
 
 def run_all(only=None):
